@@ -31,7 +31,7 @@ def hx(b):
 
 def val_sx(v):
     t = v[0]
-    if t in ('nil', 'strpanic', 'strnilptr', 'nilmap'):
+    if t in ('nil', 'strpanic', 'strnilptr', 'strselfpanic', 'nilmap'):
         return t
     if t == 'b':
         return '(b %d)' % (1 if v[1] else 0)
